@@ -9,10 +9,13 @@ Spec  : ZxVerif/Spec/Loaders.lean — outcome ∈ {Ok, Err}; largest request ≤
         steps ≤ 4·input + 256.
 Every `*_total` theorem quantifies over *all* byte strings, *all* fault scripts (short reads of any
 size pattern, failing reads/seeks at any set of indices, either end-of-file convention) and all
-receiving machines; it is about the model with every repair flag set (`Fix.all`). The code as it
-stands (`Fix.none`) violates several of them: each violation is proved on a concrete witness
-(`*_violates_*`, by evaluation), and the `*_partial` theorems state exactly which well-formedness
-of the input excludes it.
+receiving machines; it is about the model with every repair flag set (`Fix.all`). `Fix.none` is
+rustzx before any repair, `Fix.head` is /repo as of e55b22a (machine-model checks and
+`restore_7ffd` in, the C15 sites still open). The code as it stands violates several of the
+`*_total` statements: each violation is proved on a concrete witness (`*_violates_*`, by
+evaluation, for `Fix.head` where the defect is still there), and the `*_partial` theorems hold for
+*every* flag record under exactly the well-formedness of the input that excludes the unrepaired
+sites.
 -/
 import ZxVerif.Lemmas.Loaders.Vtx
 import ZxVerif.Lemmas.Loaders.Tape
@@ -56,14 +59,14 @@ theorem sna_total (bytes : List Byte) (sc : Script) (r : Recv) (hr : r.WF) :
   Triple.meets (Asset.ofList_fresh bytes sc)
     (snaLoad_triple Fix.all r hr ⟨Or.inl rfl, Or.inl rfl⟩ _)
 
-/-- **SNA, code as it stands**: total exactly on the inputs whose interrupt-mode byte (offset 25,
-low two bits) is not 3 and that are not 128K-sized files offered to a 48K machine. -/
-theorem sna_partial (bytes : List Byte) (sc : Script) (r : Recv) (hr : r.WF)
-    (him : (Asset.ofList bytes sc).u8 25 % 4 ≠ 3)
-    (hmachine : r.m128 = true ∨ bytes.length ≤ SNA_48K_SIZE) :
-    Meets bytes.length 0 (M.run (snaLoad Fix.none r) (Asset.ofList bytes sc)) :=
-  Triple.meets (Asset.ofList_fresh bytes sc)
-    (snaLoad_triple Fix.none r hr ⟨Or.inr him, Or.inr hmachine⟩ _)
+/-- **SNA, any state of repair** (in particular `Fix.none` and `Fix.head`): total on the inputs
+whose interrupt-mode byte (offset 25, low two bits) is not 3 — unless that site is repaired — and
+that are not 128K-sized files offered to a 48K machine — unless the loader refuses those. -/
+theorem sna_partial (fx : Fix) (bytes : List Byte) (sc : Script) (r : Recv) (hr : r.WF)
+    (him : fx .snaIm = true ∨ (Asset.ofList bytes sc).u8 25 % 4 ≠ 3)
+    (hmachine : fx .snaPage = true ∨ r.m128 = true ∨ bytes.length ≤ SNA_48K_SIZE) :
+    Meets bytes.length 0 (M.run (snaLoad fx r) (Asset.ofList bytes sc)) :=
+  Triple.meets (Asset.ofList_fresh bytes sc) (snaLoad_triple fx r hr ⟨him, hmachine⟩ _)
 
 /-- a 49179-byte file whose byte 25 is `im` and whose other bytes are 0 -/
 def snaFile (len im : Nat) : Asset :=
@@ -71,14 +74,23 @@ def snaFile (len im : Nat) : Asset :=
 
 /-- witness: IM byte 3 in an otherwise fine 48K snapshot panics (`set_im`: assert!(value < 3)) -/
 theorem sna_violates_im :
-    (M.run (snaLoad Fix.none (Recv.init false false)) (snaFile 49179 3)).outcome = .panic .snaIm := by
+    (M.run (snaLoad Fix.head (Recv.init false false)) (snaFile 49179 3)).outcome = .panic .snaIm := by
   decide +kernel
 
-/-- witness: a 128K-sized snapshot offered to the 48K machine panics (RAM page 5 does not exist) -/
+/-- witness (rustzx before fce5ee2): a 128K-sized snapshot offered to the 48K machine panics (RAM
+page 5 does not exist); with the machine check of `Fix.head` it is refused -/
 theorem sna_violates_machine :
     (M.run (snaLoad Fix.none (Recv.init false false)) (snaFile 49183 1)).outcome = .panic .snaPage := by
   decide +kernel
 
+example : (M.run (snaLoad Fix.head (Recv.init false false)) (snaFile 49183 1)).outcome
+    = .err .machineNotSupported := by decide +kernel
+/-- `restore_7ffd`: a locked 128K receiver takes the file's bank 2, so the 131103-byte file is one bank short -/
+example : (M.run (snaLoad Fix.head { m128 := true, locked := true, bank := 0, ay := false })
+    { len := 131103, byte := fun i => if i = 49181 then 2 else 0 }).outcome = .err (.io .unexpectedEof) := by
+  decide +kernel
+example : (M.run (snaLoad Fix.none { m128 := true, locked := true, bank := 0, ay := false })
+    { len := 131103, byte := fun i => if i = 49181 then 2 else 0 }).outcome = .ok := by decide +kernel
 example : (M.run (snaLoad Fix.none (Recv.init false false)) (snaFile 49179 1)).outcome = .ok := by decide +kernel
 example : (M.run (snaLoad Fix.none (Recv.init true false)) (snaFile 131103 2)).outcome = .ok := by decide +kernel
 example : (Recv.init true false).WF := ⟨by decide, fun _ => rfl⟩
@@ -95,18 +107,18 @@ theorem szx_total (bytes : List Byte) (sc : Script) (r : Recv) (inflate : Inflat
   Triple.meets (Asset.ofList_fresh bytes sc)
     (szxLoad_triple Fix.all r inflate (szxOK_all _ _ _ _ _) _)
 
-/-- **SZX, code as it stands**: total on the files whose chunk chain is well formed (`szxGuard`:
+/-- **SZX, any state of repair**: total on the files whose chunk chain is well formed (`szxGuard fx`:
 ids are UTF-8, declared sizes fit into the file, CRTR/Z80R ≥ 37 bytes with a UTF-8 creator and
 IM < 3, SPCR ≥ 4 bytes with border ≤ 7, AY ≥ 1 (≥ 18 with the AY on), KEYB ≥ 5, AMXM ≥ 1, RAMP ≥ 3
-bytes naming a page the receiving machine has and carrying/inflating to ≥ 16384 bytes). Every
-clause of the guard is one finding. -/
-theorem szx_partial (bytes : List Byte) (sc : Script) (r : Recv) (inflate : Inflate)
-    (hwf : szxGuard Fix.none r inflate (Asset.ofList bytes sc)) :
-    Meets bytes.length 0 (M.run (szxLoad Fix.none r inflate) (Asset.ofList bytes sc)) :=
-  Triple.meets (Asset.ofList_fresh bytes sc) (szxLoad_triple Fix.none r inflate hwf _)
+bytes naming a page the receiving machine has and carrying/inflating to ≥ 16384 bytes — each
+clause waived where its site is repaired). Every clause of the guard is one finding. -/
+theorem szx_partial (fx : Fix) (bytes : List Byte) (sc : Script) (r : Recv) (inflate : Inflate)
+    (hwf : szxGuard fx r inflate (Asset.ofList bytes sc)) :
+    Meets bytes.length 0 (M.run (szxLoad fx r inflate) (Asset.ofList bytes sc)) :=
+  Triple.meets (Asset.ofList_fresh bytes sc) (szxLoad_triple fx r inflate hwf _)
 
 /-- the guard is satisfiable: a header-only file, and a file with a well-formed KEYB chunk -/
-example : szxGuard Fix.none (Recv.init false false) (fun _ _ => none)
+example : szxGuard Fix.head (Recv.init false false) (fun _ _ => none)
     (Asset.ofList [0x5A, 0x58, 0x53, 0x54, 1, 4, 1, 0]) := by
   unfold szxGuard szxOK
   intro h; simp [Asset.ofList] at h
@@ -116,7 +128,7 @@ def szxFile (mid : Nat) (id : List Nat) (size : Nat) (data : List Nat) : Asset :
   Asset.ofList (([0x5A, 0x58, 0x53, 0x54, 1, 4, mid, 0] ++ id ++
     [size % 256, size / 256 % 256, size / 65536 % 256, size / 16777216] ++ data).map (BitVec.ofNat 8))
 
-def run48 (a : Asset) : Res := M.run (szxLoad Fix.none (Recv.init false false) (fun _ _ => none)) a
+def run48 (a : Asset) : Res := M.run (szxLoad Fix.head (Recv.init false false) (fun _ _ => none)) a
 
 theorem szx_violates_id_utf8 :
     (run48 (szxFile 1 [0xFF, 0xFF, 0xFF, 0xFF] 0 [])).outcome = .panic .szxIdUtf8 := by decide +kernel
@@ -148,7 +160,7 @@ theorem szx_violates_spcr_border :
   decide +kernel
 
 theorem szx_violates_ay_short :
-    (M.run (szxLoad Fix.none (Recv.init true true) (fun _ _ => none))
+    (M.run (szxLoad Fix.head (Recv.init true true) (fun _ _ => none))
       (szxFile 2 [0x41, 0x59, 0, 0] 5 [0, 0, 0, 0, 0])).outcome = .panic .szxAyShort := by decide +kernel
 
 theorem szx_violates_keyb_short :
@@ -162,7 +174,11 @@ theorem szx_violates_ramp_short :
 
 /-- RAM page 9 exists on no machine; page 3 does not exist on the 48K machine -/
 theorem szx_violates_ramp_page :
-    (run48 (szxFile 2 [0x52, 0x41, 0x4D, 0x50] 3 [0, 0, 3])).outcome = .panic .szxRampPage := by decide +kernel
+    (run48 (szxFile 1 [0x52, 0x41, 0x4D, 0x50] 3 [0, 0, 3])).outcome = .panic .szxRampPage := by decide +kernel
+
+/-- the machine check of `Fix.head`: a 128K file is refused by the 48K machine before any chunk is read -/
+example : (run48 (szxFile 2 [0x52, 0x41, 0x4D, 0x50] 3 [0, 0, 3])).outcome = .err .machineNotSupported := by
+  decide +kernel
 
 theorem szx_violates_ramp_data :
     (run48 (szxFile 1 [0x52, 0x41, 0x4D, 0x50] 10 [0, 0, 5, 0, 0, 0, 0, 0, 0, 0])).outcome
@@ -170,7 +186,7 @@ theorem szx_violates_ramp_data :
 
 /-- a compressed page that inflates to 100 bytes -/
 theorem szx_violates_ramp_inflated :
-    (M.run (szxLoad Fix.none (Recv.init false false) (fun _ _ => some 100))
+    (M.run (szxLoad Fix.head (Recv.init false false) (fun _ _ => some 100))
       (szxFile 1 [0x52, 0x41, 0x4D, 0x50] 5 [1, 0, 5, 0x78, 0x01])).outcome = .panic .szxRampInflated := by
   decide +kernel
 
